@@ -189,6 +189,7 @@ fn is_root(x: i64, r: i64, n: u32) -> bool {
     }
 }
 /// `sqrt`, `cbrt`, `nth_root(n)` for `n` in `$lo..=$hi`; negative inputs only with odd degree.
+/// Unwind >= 18: `From<u128> for BUintD8<N>` walks the 16 bytes of the `u128` root.
 /// One degree class per harness (below 2^128 bnum forwards to num-integer's `u128` roots, a Newton
 /// iteration over 64-bit divisions: all degrees in one harness did not finish in 10 min at 8 bits).
 macro_rules! c18_roots {
@@ -405,13 +406,13 @@ c18_cfg8!(BIntD8<1>, i8, any_i8x1, p_i8, b_i8, true, 8,
     c18_div_mod_floor_i8, c18_div_rem_i8, c18_gcd_i8, c18_lcm_i8, c18_multiple_i8, c18_multiple_of_zero_i8, c18_euclid_i8,
     c18_consts_i8, c18_addsub_i8, c18_mul_i8, c18_checked_div_i8, c18_shifts_i8, c18_pow_i8);
 c18_signed!(c18_signed_i8, BIntD8<1>, i8, any_i8x1, p_i8, b_i8, 6);
-c18_roots!(c18_sqrt_u8, BUintD8<1>, u8, any_u8x1, p_u8, b_u8, 2, 2, 16);
-c18_roots!(c18_cbrt_u8, BUintD8<1>, u8, any_u8x1, p_u8, b_u8, 3, 3, 16);
-c18_roots!(c18_nth_root_u8, BUintD8<1>, u8, any_u8x1, p_u8, b_u8, 4, 9, 16);
-c18_roots!(c18_nth_root1_u8, BUintD8<1>, u8, any_u8x1, p_u8, b_u8, 1, 1, 16);
-c18_roots!(c18_sqrt_i8, BIntD8<1>, i8, any_i8x1, p_i8, b_i8, 2, 2, 16);
-c18_roots!(c18_cbrt_i8, BIntD8<1>, i8, any_i8x1, p_i8, b_i8, 3, 3, 16);
-c18_roots!(c18_nth_root_i8, BIntD8<1>, i8, any_i8x1, p_i8, b_i8, 4, 9, 16);
+c18_roots!(c18_sqrt_u8, BUintD8<1>, u8, any_u8x1, p_u8, b_u8, 2, 2, 18);
+c18_roots!(c18_cbrt_u8, BUintD8<1>, u8, any_u8x1, p_u8, b_u8, 3, 3, 18);
+c18_roots!(c18_nth_root_u8, BUintD8<1>, u8, any_u8x1, p_u8, b_u8, 4, 9, 18);
+c18_roots!(c18_nth_root1_u8, BUintD8<1>, u8, any_u8x1, p_u8, b_u8, 1, 1, 18);
+c18_roots!(c18_sqrt_i8, BIntD8<1>, i8, any_i8x1, p_i8, b_i8, 2, 2, 18);
+c18_roots!(c18_cbrt_i8, BIntD8<1>, i8, any_i8x1, p_i8, b_i8, 3, 3, 18);
+c18_roots!(c18_nth_root_i8, BIntD8<1>, i8, any_i8x1, p_i8, b_i8, 4, 9, 18);
 
 // 16-bit configurations: everything that is not a 16-bit divider/multiplier equivalence
 c18_even_odd!(c18_even_odd_u16, BUintD8<2>, u16, any_u8x2, p_u16, b_u16, 6);
